@@ -384,8 +384,11 @@ def run(ck: Check):
                       "(i < 4) transactional request of a call) run on the real producer and on the model; "
                       "non-trivial = at least one transactional request reached the cluster; distinct by "
                       "(calls, faults)")
+    import c16_dispatch
     ok_t, _ = ck.regenerate(["TxnTable"])
+    c16_dispatch.regenerate(ck)
     ok_p, _ = ck.coq_props("C16")
+    c16_dispatch.check_txn_dispatch(ck)
     ck.log(f"translation ok={ok_t}, proofs ok={ok_p} ({time.time() - ck.t0:.0f}s)")
 
     rng = random.Random(ck.seed * 104729 + 16)
